@@ -653,4 +653,6 @@ def check(fx, rep, tier):
     for rule, (fl, what) in sub.floors.items():
         if sub.count(rule) < fl:
             rep.bad('R06.6', 'floor|' + rule, '-', 'anchor lost in imported rule %s: expected %d %s' % (rule, fl, what))
+    import imports as _imp
+    _imp.layer(fx, rep, 'C06')
     return META
